@@ -7,7 +7,8 @@ from . import common as c
 KINDS = ["instantiate", "exec", "query", "sudo", "migrate", "reply"]
 EP = {"instantiate": ("instantiate", "crate::sv::InstantiateMsg"), "exec": ("execute", "crate::sv::ContractExecMsg"), "query": ("query", "crate::sv::ContractQueryMsg"),
       "sudo": ("sudo", "crate::sv::ContractSudoMsg"), "migrate": ("migrate", "crate::sv::MigrateMsg"), "reply": ("reply", "sylvia::cw_std::Reply")}
-SETS = [[k] for k in KINDS] + [KINDS, [], ["exec", "reply"], ["sudo", "migrate", "query"]]
+# (the order is the order of the override attributes on the contract: `reply` first shifts position-based lookups)
+SETS = [[k] for k in KINDS] + [KINDS, [], ["exec", "reply"], ["sudo", "migrate", "query"], ["reply", "sudo", "migrate"], ["migrate", "reply", "exec", "sudo"]]
 
 
 def name_of(s):
